@@ -48,9 +48,13 @@ class Orphanage(ElabPass):
     def elaborate_module(self, module: Module) -> Module:
         """Elaborate a Module"""
 
-        # Check each attribute in the module namespace for orphanage.
-        for attr in module.namespace.values():
+        # Check each attribute in the module namespace for orphanage,
+        # and that it still carries the name which the module holds it by.
+        for name, attr in module.namespace.items():
             self.assert_parentage(module, attr)
+            if attr.name != name:
+                msg = f"Orphanage: Module {module} holds attribute {attr} under the name {name}, but it is now named {attr.name}!"
+                self.fail(msg)
 
         # Check instance connections, which are not in the module namespace.
         instlike = (
